@@ -246,6 +246,31 @@ def run_e2e(report, n, rng):
             if report_failure(report, f"e2e_{i}", case, fid):
                 return
     report.sample(dict(kind="e2e", format=fmt, reuse_tolerance=tol, source=srcs[0][1]))
+    # the same through the real command line: "reuse off" by flag and by file stores copies separately, the
+    # default shares them
+    srcs, fam, kinds = directed_sets()[1]
+    for fmt, via, tol in (("glyf_colr_1", "flag", -1.0), ("picosvg", "file", -1.0), ("glyf_colr_0", "file", 0.1)):
+        over = dict(color_format=fmt, upem=1000, ascender=800, descender=-200, width=1000, reuse_tolerance=tol, keep_glyph_names=True)
+        case = dict(kind="e2e", format=fmt, reuse_tolerance=tol, built_by="command line, options by " + via, sources=[s_[1] for s_ in srcs])
+        try:
+            font, cfg, picos, _ = build.build_cli(over, srcs, via)
+        except Exception as ex:
+            case["error"] = str(ex)[-1200:]
+            report_failure(report, f"cli_build_{fmt}", case)
+            return
+        g = e2e.glyph_for(font, srcs[0][2])
+        ds = donors_otsvg(font, font.getGlyphID(g)) if fmt == "picosvg" else donors_colr(font, g)
+        report.count(("c19-cli", fmt, tol, via), True)
+        report.hist("e2e.format", fmt + " via command line")
+        if tol == -1.0 and len(set(ds)) != len(ds):
+            case["problem"] = f"reuse disabled (-1) on the command line but shapes share an outline: {ds}"
+            report_failure(report, f"cli_{fmt}", case)
+            return
+        if tol != -1.0 and len(set(ds)) != 1:
+            case["problem"] = f"four congruent copies are drawn from {len(set(ds))} outlines: {ds}"
+            fid = "F14-normal-form-rounding" if otsvg_normal_form_split(srcs, tol) else None
+            if report_failure(report, f"cli_{fmt}", case, fid):
+                return
 
 
 def run_normalize(report, n, rng):
